@@ -50,6 +50,7 @@ def closure_members(kind, step_ctor, iv_fields=('iv',)):
     fut = ', '.join('mut_ref_future(self.%s)@' % f for f in iv_fields)
     arg = 'enc' if kind == 'enc' else 'dec'
     return '''
+    open spec fn pre_c(&self) -> bool { true }
     #[verifier::prophetic]
     open spec fn post_c(&self, %s: spec_fn(Blk) -> Blk) -> bool {
         self.f.post(%s(%s), seq![%s], seq![%s])
